@@ -14,8 +14,10 @@ def cubes_resolve(tier):
 
 def cubes_move(tier):
     if tier == "quick":
-        return [dict(mapping=m, rkind="remote", _w=3) for m in (0, 1, 2, 3, 4)] + [dict(mapping=1, rkind="base", _w=3), dict(mapping=2, rkind="remote", dup=True, _w=3)]
-    return [dict(mapping=m, rkind=r, dup=d, _w=3) for m in (0, 1, 2, 3, 4) for r in ("remote", "base") for d in (False, True)]
+        return [dict(mapping=m, rkind="remote", _w=3) for m in (0, 1, 2, 3, 4)] + [dict(mapping=1, rkind="base", _w=3), dict(mapping=2, rkind="remote", dup=True, _w=3)] + \
+               [dict(mapping=1, rkind="remote", nested_first=True, _w=3)]  # nested prefix registered before its parent
+    return [dict(mapping=m, rkind=r, dup=d, _w=3) for m in (0, 1, 2, 3, 4) for r in ("remote", "base") for d in (False, True)] + \
+           [dict(mapping=m, rkind=r, nested_first=True, _w=3) for m in (1, 2) for r in ("remote", "base")]
 
 
 R_SMOKE = dict(q0=0, q1=1, ql=2, r0=0, r1=0, rl=1, s0=0, s1=1, sl=2, has0=True, has1=True, has2=True, d0=True, c0=True, m0=True,
